@@ -160,6 +160,10 @@ func init() {
 			}
 			return r
 		},
+		"verifOverrides": func(fr *frame, args []value) value {
+			fr.i.ps.overridesOn = args[0].(bool)
+			return nil
+		},
 		"verifStderr": func(fr *frame, args []value) value {
 			return strings.Join(fr.i.ps.stderr, "\n")
 		},
